@@ -351,7 +351,7 @@ PROPS = {
               "the same definitions equals the Go code bit for bit (Add, Sub, Scale, Dot, Cross, L1Norm, Translate, "
               "NewVectorFromPoints, ToPoint, Start, End, Mul, MulVec); the identities are checked on the implementation's "
               "own answers up to stated rounding bounds (vlineid, vmat), and Norm/Unit/Cos/DistancePoint/RotateBetweenVector "
-              "numerically (vnum, vquat: |q|^2 = 1 and q s q* = e within 1e-12 + 4e-15/(1+cos)). MaxPoint returns a listed point whose binary64 projection bounds all others and rejects exactly the empty list (maxPoint_spec); MinPoint, UniqueAppend, IsClose/AlmostEqual are tied by exact comparison (vminpt, vuniq, visclose).",
+              "numerically (vnum, vquat: |q|^2 = 1 and q s q* = e within 1e-12 + 4e-15/(1+cos)). MaxPoint and MinPoint return a listed point whose binary64 projection bounds all others and reject exactly the empty list (maxPoint_spec, minPoint_spec); UniqueAppend, IsClose/AlmostEqual are tied by exact comparison (vminpt, vuniq, visclose).",
         note="Lean kernel + propext/Classical.choice/Quot.sound; model tied by exact comparison. The ring/real identities are "
              "theorems; in binary64 they hold only up to rounding, which is validated numerically, not proved. Vectors whose "
              "cosine is within 1e-10 of -1 are treated by the library as opposite: the result then carries s onto -s, up to "
